@@ -413,10 +413,13 @@ class BaseTemplateFile(BaseTemplate):
             _verif_point("check.mtime", template=self, mtime=mtime)
 
             if mtime != self._v_last_read:
-                self._v_last_read = mtime
-                _verif_point("check.last_read_set", template=self)
+                # Clear the flag before remembering the modification
+                # time: a concurrent caller that sees the new time must
+                # not find the template still marked as cooked.
                 self._cooked = False
                 _verif_point("check.uncooked", template=self)
+                self._v_last_read = mtime
+                _verif_point("check.last_read_set", template=self)
 
         if self._cooked is False:
             body = self.read()
